@@ -63,6 +63,9 @@ def decorate(spec, rng):
             n['node_type'] = None
         elif r < 0.3:
             n['node_type'] = rng.choice(['custom', 'datasource', 'feature'])
+        elif r < 0.42:
+            # declared with a member of the engine's own enum instead of a plain string
+            n['node_type_enum'] = rng.choice(['processor', 'generic', 'recurrent', 'switch', 'input_one_of'])
         if rng.random() < 0.4:
             n['verbose_name'] = 'Verbose ' + n['name']
         if rng.random() < 0.4:
@@ -77,6 +80,9 @@ def build_real(spec):
         cls = classes[i]
         if 'node_type' in n:
             cls.node_type = n['node_type']
+        if 'node_type_enum' in n:
+            from ml_pipeline_engine.node.enums import NodeType
+            cls.node_type = NodeType(n['node_type_enum'])
         if 'verbose_name' in n:
             cls.verbose_name = n['verbose_name']
         if 'docstring' in n:
